@@ -71,11 +71,15 @@ def rand_pos(rng, kind=None):
     """positive rational + the style it should be rendered in"""
     kind = kind or rng.choice(["int", "frac", "dec", "frac", "dec", "tiny", "big", "lt1"])
     if kind == "int":
-        return F(rng.randint(1, 9)), "int"
+        return F(rng.randint(1, 9) if rng.random() < 0.7 else rng.randint(10, 40)), "int"
     if kind == "frac":
-        return F(rng.randint(1, 12), rng.randint(1, 9)), "frac"
+        if rng.random() < 0.7:
+            return F(rng.randint(1, 12), rng.randint(1, 9)), "frac"
+        return F(rng.randint(1, 60), rng.randint(2, 30)), "frac"
     if kind == "dec":
-        return F(rng.choice(_DECS)), "dec"
+        if rng.random() < 0.7:
+            return F(rng.choice(_DECS)), "dec"
+        return F(rng.randint(1, 3000), rng.choice([100, 1000])), "dec"
     if kind == "tiny":
         return rng.choice([F(1, 10 ** 6), F(1, 10 ** 4), F(1, 10 ** 9), F(3, 10 ** 5), F(1, 2 ** 20)]), rng.choice(["frac", "dec", "exp"])
     if kind == "big":
@@ -280,10 +284,10 @@ def law_vector(rng, fam, extreme=False):
             feats.append("edge-probability")
             st = rng.choice(["frac", "dec"])
         elif kind == "frac":
-            d = rng.randint(2, 12)
+            d = rng.randint(2, 12) if rng.random() < 0.7 else rng.randint(13, 60)
             p, st = F(rng.randint(1, d - 1), d), "frac"
         else:
-            p, st = F(rng.randint(1, 99), 100), "dec"
+            p, st = (F(rng.randint(1, 99), 100), "dec") if rng.random() < 0.7 else (F(rng.randint(1, 9999), 10000), "dec")
         return [R(p, st)], [p], feats
     if fam == "Categorical":
         n = rng.choice([1, 2, 3, 3, 4, 5, 6]) if not extreme else rng.choice([1, 7, 9])
@@ -318,8 +322,7 @@ def law_cases(rng, per_family, kmax=8):
         tries = 0
         while len([c for c in out if c["family"] == fam]) < per_family and tries < per_family * 20:
             tries += 1
-            i = len(seen)
-            extreme = (i % 4 == 3)
+            extreme = (tries % 4 == 3)
             ps_str, ps, feats = law_vector(rng, fam, extreme)
             key = tuple(ps_str)
             if key in seen:
